@@ -232,8 +232,17 @@ TPt == IsEvent("blspt") /\ LET e == Rec[l] IN
          /\ e.ours_back = e.ref_back /\ e.ours_back = e.ours_u          \* compress then decompress is the identity
          /\ SWOn(<<e.x, e.y>>, MOne(Pm))
          /\ UNCHANGED tab
+\* uncompressed strings with a canonical or a non-canonical (c + p) base-field coordinate: validated ("v") and
+\* unchecked ("u") readers of both engines give the same verdict and read back the same value; a non-canonical
+\* coordinate is never accepted (the base field's reader checks canonicity in every mode)
+TRaw == IsEvent("blsraw") /\ LET e == Rec[l] IN
+          /\ e.ours_ok_v = e.ref_ok_v /\ e.ours_re_v = e.ref_re_v
+          /\ e.ours_ok_u = e.ref_ok_u /\ e.ours_re_u = e.ref_re_u
+          /\ (e.what = "canonical") => (e.ours_ok_v /\ e.ours_ok_u /\ e.ours_re_v = e.b /\ e.ours_re_u = e.b)
+          /\ (e.what # "canonical") => (~e.ours_ok_v /\ ~e.ours_ok_u)
+          /\ UNCHANGED tab
 TForce == l <= Len(Rec) /\ Has(Rec[l], "force") /\ l' = l + 1 /\ UNCHANGED tab
-PNext == TReset \/ TGen \/ TMul \/ TPair \/ TBlsConst \/ TFrob \/ TDeser \/ TPt \/ TForce
+PNext == TReset \/ TGen \/ TMul \/ TPair \/ TBlsConst \/ TFrob \/ TDeser \/ TPt \/ TRaw \/ TForce
 PSpec == PInit /\ [][PNext]_pvars
 \* non-degeneracy and bilinearity as a state invariant over what has been observed (maintained step by step by
 \* Observe; not re-checked in every state because it is quadratic in the table size)
